@@ -144,6 +144,13 @@ func (c cfgA) literal() string {
 // sigSuffix classifies the non-canonical part for violation signatures: the kind of each redundant
 // field, never its exact spelling ("" for canonical configurations, whose signatures are unchanged).
 func (c cfgA) sigSuffix() string {
+	if c.Method != "" {
+		// application-defined request methods dimension; main folds the qualifier away when the same
+		// signature shows with POST on a default app
+		c2 := c
+		c2.Method = ""
+		return c2.sigSuffix() + " unsafe-method=" + methodClassB(c.Method)
+	}
 	if c.canonical() {
 		return ""
 	}
